@@ -78,11 +78,38 @@ def stream_writer():
     return w, tr, loop
 
 
+def spoil_last_int(ent):
+    """`ent` with its last untagged integer field out of range (earlier fields are written first)"""
+    import dataclasses
+    fs = [f for f in dataclasses.fields(ent) if "tag" not in f.metadata]
+    ints = [n for n, f in enumerate(fs) if f.metadata.get("kafka_type") in ("int8", "int16", "int32", "int64", "uint16", "uint32")]
+    if not ints or ints[-1] == 0:
+        return None
+    return dataclasses.replace(ent, **{fs[ints[-1]].name: 2**70})
+
+
 def spoil(obj, rng):
     """a copy of `obj` whose LAST integer-typed field (tagged ones preferred: they are written last)
     is out of range, so that encoding fails after most of the message was produced"""
     import dataclasses
     fs = dataclasses.fields(obj)
+    # a failure *inside* the payload of a tagged structure / array of structures happens after part of
+    # that payload was staged: prefer it when the message has one
+    deep = []
+    for f in fs:
+        if "tag" not in f.metadata:
+            continue
+        v = getattr(obj, f.name)
+        if dataclasses.is_dataclass(v) and not isinstance(v, type):
+            deep.append((f, None))
+        elif isinstance(v, tuple) and v and dataclasses.is_dataclass(v[-1]):
+            deep.append((f, len(v) - 1))
+    if deep and rng.random() < 0.7:
+        f, k = rng.choice(deep)
+        v = getattr(obj, f.name)
+        sub = spoil_last_int(v if k is None else v[k])
+        if sub is not None:
+            return dataclasses.replace(obj, **{f.name: sub if k is None else v[:k] + (sub,)})
     cands = [f for f in fs if f.metadata.get("kafka_type") in ("int8", "int16", "int32", "int64", "uint16", "uint32")]
     if not cands:
         for f in reversed(fs):
